@@ -540,13 +540,27 @@ def quantity_edit(draw, spec, names=None, again=None):
     e = spec["objs"][n]
     cls = e["cls"]
     cur = e.get(a) or S.default_quantity(cls, a)
-    mode = draw(st.sampled_from(["factor", "factor", "factor", "fresh", "fresh", "reexpress", "zero"]))
+    mode = draw(st.sampled_from(["factor", "factor", "factor", "fresh", "fresh", "reexpress", "zero", "unit_only"]))
     if force_fresh:
         mode = "fresh"
     if mode == "zero":
         # inputs for which zero is a meaningful value (no user time, nothing stored, no idle power, ...)
         if a in ZERO_OK and cur[0] != 0:
             return dict(op="q", obj=n, attr=a, val=[0.0, cur[1]])
+        mode = "factor"
+    if mode == "unit_only":
+        # the same number in another unit (50 W -> 50 kW): a real change although the magnitudes are equal
+        alts = [x for x in unit_alternatives(cur[1]) if x not in ("year", "day", "PB", "kW/PB")] \
+            if a not in ("fixed_nb_of_instances", "server_utilization_rate", "data_replication_factor",
+                         "power_usage_effectiveness") else []
+        if alts and cur[0] != 0:
+            nu = draw(st.sampled_from(alts))
+            val = [cur[0], nu]
+            if a in ("user_time_spent", "request_duration", "video_duration"):
+                hours = val[0] * {"ms": 1 / 3.6e6, "s": 1 / 3600.0, "min": 1 / 60.0, "hour": 1.0}.get(nu, 1.0)
+                if hours > 48:
+                    val = [48.0, "hour"]
+            return dict(op="q", obj=n, attr=a, val=val)
         mode = "factor"
     if mode == "reexpress":
         # the same physical value written in another unit of its family: an edit that must change nothing
